@@ -1,7 +1,7 @@
 """Environment seams owned by the simulator.
 
 E1  filesystem   builtins.open / io.open / os.remove / os.unlink / os.replace /
-                 os.rename -> SimFS (real Buffered*/TextIOWrapper layers over a
+                 os.rename / os.stat / os.lstat / os.listdir -> SimFS (real Buffered*/TextIOWrapper layers over a
                  fake RawIOBase, fault script consulted on every raw call)
 E2  randomness   random.seed / numpy.random.seed installed per operation;
                  numpy.random.default_rng() and os.urandom made deterministic
@@ -412,9 +412,40 @@ class SimFS:
         self.files[rd] = self.files.pop(rs)
         self.log.add("fs", "replace", rs, rd, "ok")
 
+    def stat(self, path, *a, **k):
+        """os.stat / os.lstat for simulated files (os.path.exists, isfile, getsize,
+        pathlib.Path.exists/stat all end here)."""
+        rel = self.rel(path) if not k.get("dir_fd") else None
+        if rel is None:
+            return self._real["stat"](path, *a, **k)
+        if rel in self.files:
+            self.log.add("fs", "stat", rel, "file")
+            size = len(self.files[rel])
+            return os.stat_result((0o100644, 0, 0, 1, os.getuid(), os.getgid(), size, 0, 0, 0))
+        prefix = rel.rstrip(os.sep) + os.sep
+        if rel in (".", "") or any(f.startswith(prefix) for f in self.files):
+            return self._real["stat"](self.root)
+        try:
+            return self._real["stat"](path, *a, **k)  # a real stray file (seam bypass)
+        except FileNotFoundError:
+            self.log.add("fs", "stat", rel, "ENOENT")
+            raise
+
+    def listdir(self, path="."):
+        rel = self.rel(path)
+        real = self._real["listdir"](path)
+        if rel is None:
+            return real
+        prefix = "" if rel in (".", "") else rel.rstrip(os.sep) + os.sep
+        names = {f[len(prefix):].split(os.sep)[0] for f in self.files if f.startswith(prefix)}
+        return sorted(set(real) | names)
+
     @contextmanager
     def installed(self):
         self._real = {
+            "stat": os.stat,
+            "lstat": os.lstat,
+            "listdir": os.listdir,
             "open": builtins.open,
             "io_open": io.open,
             "remove": os.remove,
@@ -428,6 +459,9 @@ class SimFS:
         os.unlink = self.remove
         os.replace = self.replace
         os.rename = self.replace
+        os.stat = self.stat
+        os.lstat = self.stat
+        os.listdir = self.listdir
         try:
             yield self
         finally:
@@ -437,6 +471,9 @@ class SimFS:
             os.unlink = self._real["unlink"]
             os.replace = self._real["replace"]
             os.rename = self._real["rename"]
+            os.stat = self._real["stat"]
+            os.lstat = self._real["lstat"]
+            os.listdir = self._real["listdir"]
 
     def stray_real_files(self):
         """Files that appeared on the real disk inside the sandbox (seam bypass)."""
